@@ -244,6 +244,8 @@ def rejected_calls():
         ("run", "bad-on_missing", X, {"on_missing": "raise"}),
         ("run", "bad-error_handling", X, {"error_handling": "stop"}),
         ("run", "bad-select", X, {"select": ["nope"]}),
+        ("run", "bad-select-string", X, {"select": "nope"}),           # the single-string shorthand names an output too
+        ("run", "select-names-an-input", X, {"select": "x"}),
         ("run", "bad-override-policy", X, {"on_internal_override": "boom"}),
         ("run", "internal-override-error", {"x": "in.x", "a": "in.a"}, {"on_internal_override": "error"}),
         ("run", "input-given-twice", X, {"x": "again"}),   # the same key in the values dict and as a keyword argument
@@ -254,6 +256,7 @@ def rejected_calls():
         ("map", "map-bad-mode", {"x": ["1", "2"]}, {"map_over": "x", "map_mode": "zap"}),
         ("map", "map-bad-error_handling", {"x": ["1", "2"]}, {"map_over": "x", "error_handling": "stop"}),
         ("map", "map-sync-runner-async-node", {"x": ["1", "2"]}, {"map_over": "x"}),
+        ("map", "map-too-many-items-unbounded", {"x": [str(i) for i in range(10001)]}, {"map_over": "x"}),   # AsyncRunner only
         ("run", "sync-runner-interrupt", X, {}),                       # only SyncRunner: interrupts need the async runner
         ("map", "map-with-interrupt", {"x": ["1", "2"]}, {"map_over": "x"}),   # interrupts are incompatible with map
         # NOT in the list: what only an ITEM's run rejects (a missing input, an invalid on_missing): by design (and by the
@@ -271,6 +274,8 @@ def rejected_calls():
                     if pname.endswith("interrupt") != (name in ("sync-runner-interrupt", "map-with-interrupt")):
                         continue
                     if name == "sync-runner-interrupt" and mode != "sync":
+                        continue
+                    if name == "map-too-many-items-unbounded" and (mode != "async" or pname != "flat"):
                         continue
                     rt = build.Runtime(prog)
                     with warnings.catch_warnings():
